@@ -235,7 +235,7 @@ def flatten(ts):
 # Generator
 # --------------------------------------------------------------------------------------------
 class Gen:
-    def __init__(self, rng, mode, ncomp=None, collide=0.0, provide=0.0, errors=0.05, depth=3, loops=0.25, only=0.12):
+    def __init__(self, rng, mode, ncomp=None, collide=0.0, provide=0.0, errors=0.05, depth=3, loops=0.25, only=0.12, probes=0.0):
         self.r = rng
         self.mode = mode
         self.collide = collide
@@ -244,6 +244,7 @@ class Gen:
         self.maxdepth = depth
         self.p_loop = loops
         self.p_only = only
+        self.p_probe = probes
         self.ncomp = ncomp if ncomp is not None else rng.randint(1, 4)
         self.uid = 0
         self.slots = {}      # cname -> [(name, is_default, is_required, has_data)]
@@ -260,6 +261,10 @@ class Gen:
         if self.r.random() < self.collide:
             return self.r.choice(["x", "y"])
         return self.fresh(role)
+
+    def probe(self):
+        """reference to a variable nobody binds (reads '' everywhere unless something leaks into scope)"""
+        return ("out", ("var", self.fresh("u")))
 
     def text(self):
         return ("text", self.r.choice(["[", "]", "|", " ", ".", "-", "T%d" % self.r.randrange(10), " \n"]))
@@ -368,7 +373,7 @@ class Gen:
         if kind == "repeat" and self.slots[cname]:
             return self.gen_slot(cname, usable, scope, depth, r.choice(self.slots[cname]))
         if kind == "text" or depth >= self.maxdepth:
-            return [self.text()]
+            return [self.text()] if self.r.random() > self.p_probe else [("text", "^"), self.probe()]
         if kind == "out":
             return [("out", self.expr(scope))]
         if kind == "filled" and self.slots[cname]:
@@ -426,7 +431,7 @@ class Gen:
         for _ in range(r.randint(1, 3)):
             c = r.random()
             if c < 0.3:
-                out.append(self.text())
+                out.append(self.text() if r.random() > self.p_probe else self.probe())
             elif c < 0.6:
                 out.append(("out", self.expr(sc)))
             elif c < 0.8 and depth < self.maxdepth and usable_all:
@@ -606,3 +611,98 @@ def shrink_prog(prog, still_fails, budget=400):
             except Exception:
                 pass
     return cur
+
+
+# --------------------------------------------------------------------------------------------
+# Name collisions: merge two binders of a program whose names are all distinct
+# --------------------------------------------------------------------------------------------
+ROLE_PREFIXES = ("sd", "df", "p", "d", "w", "i", "u")
+
+
+def role_of(name):
+    for pre in ROLE_PREFIXES:
+        if name.startswith(pre) and name[len(pre):].isdigit():
+            return pre
+    return None
+
+
+def names_of(prog):
+    """all generated variable names of the program with their role"""
+    found = {}
+
+    def ex(e):
+        if e[0] in ("var", "dot") and role_of(e[1]):
+            found[e[1]] = role_of(e[1])
+
+    def f(t, path):
+        k = t[0]
+        if k == "out":
+            ex(t[1])
+        elif k == "if":
+            ex(t[1])
+        elif k in ("for", "with"):
+            if role_of(t[1]):
+                found[t[1]] = role_of(t[1])
+            ex(t[2])
+        elif k == "slot":
+            for _, e in t[4]:
+                ex(e)
+        elif k == "fill":
+            ex(t[1])
+            for a in (t[2], t[3]):
+                if a and role_of(a):
+                    found[a] = role_of(a)
+        elif k in ("comp", "provide"):
+            for _, e in t[2]:
+                ex(e)
+    walk(prog["page"], f)
+    for n, cd in prog["lib"]:
+        walk(cd["tpl"], f)
+        for x, d in cd["data"]:
+            if role_of(x):
+                found[x] = role_of(x)
+    for k, _ in prog["ctx"]:
+        if role_of(k):
+            found[k] = role_of(k)
+    return found
+
+
+def rename(prog, old, new):
+    def rn(x):
+        return new if x == old else x
+
+    def ex(e):
+        if e[0] == "var":
+            return ("var", rn(e[1]))
+        if e[0] == "dot":
+            return ("dot", rn(e[1]), e[2])
+        return e
+
+    def kw(l):
+        return [(k, ex(e)) for k, e in l]
+
+    def ts(l):
+        return [t1(t) for t in l]
+
+    def t1(t):
+        k = t[0]
+        if k == "out":
+            return ("out", ex(t[1]))
+        if k == "if":
+            return ("if", ex(t[1]), ts(t[2]), ts(t[3]))
+        if k in ("for", "with"):
+            return (k, rn(t[1]), ex(t[2]), ts(t[3]))
+        if k == "slot":
+            return ("slot", t[1], t[2], t[3], kw(t[4]), ts(t[5]))
+        if k == "fill":
+            return ("fill", ex(t[1]), rn(t[2]) if t[2] else None, rn(t[3]) if t[3] else None, ts(t[4]))
+        if k == "comp":
+            return ("comp", t[1], kw(t[2]), t[3], ts(t[4]))
+        if k == "provide":
+            return ("provide", t[1], kw(t[2]), ts(t[3]))
+        return t
+    q = dict(prog)
+    q["page"] = ts(prog["page"])
+    q["lib"] = [(n, {"tpl": ts(cd["tpl"]), "data": [(rn(x), d) for x, d in cd["data"]]}) for n, cd in prog["lib"]]
+    q["ctx"] = [(rn(k), v) for k, v in prog["ctx"]]
+    return q
